@@ -30,11 +30,12 @@ FAMILY = [
     ("p/readv-u", "p", False),
     ("p/sub", "p", False),                 # sub-evaluation from inside the command (stub answers one/addn-2)
     ("p/one", "p", False),                 # a first-command used mid-query (ignores its input, but not the prefix's flags)
+    ("p/noneval", "p", False),             # a cacheable result whose VALUE is None
 ]
 # what the STATEMENT says about the action itself (the oracle never reads this off the implementation's output):
 #   plain = cacheable when the predecessor is; volatile / fails / nocache = never retrievable as data
 ACTION_KIND = {"p/addn-5": "plain", "p/vol": "volatile", "p/boom": "fails", "p/addn-x": "fails", "p/setv-7": "plain", "p/nocache": "nocache",
-               "p/mut": "plain", "p/addn-%35": "plain", "p/addn-5/res.json": "plain", "p/addn": "plain", "p/readv-u": "plain", "p/sub": "plain", "p/one": "plain"}
+               "p/mut": "plain", "p/addn-%35": "plain", "p/addn-5/res.json": "plain", "p/addn": "plain", "p/readv-u": "plain", "p/sub": "plain", "p/one": "plain", "p/noneval": "plain"}
 
 CONFIGS = ["memory", "proxy(memory)", "memory+memory", "nocache+memory", "memory.if_contains(Keep)+memory",
            "memory.if_not_contains(volatile)+memory", "memory.if_attribute_equal(Keep,k2)+memory",
@@ -254,7 +255,7 @@ def cache_obligations(tier, clause):
     q = tier == "quick"
     obs = []
     configs = [0, 2] if q else list(range(len(CONFIGS)))
-    fam = [0, 1, 2, 3, 4, 5, 7, 8, 9, 12] if q else list(range(len(FAMILY)))
+    fam = [0, 1, 2, 3, 4, 5, 7, 8, 9, 12, 13] if q else list(range(len(FAMILY)))
     for ci in configs:
         for qi in fam:
             obs.append(Ob("ob_cache_step", dict(q=qi, config=ci, clause=clause), timeout=200 if q else 900, per_path=60, twin_timeout=60,
